@@ -439,13 +439,43 @@ func genC05(c *Ctx) {
 			for _, mode := range []string{"n", "tlt", "tln"} {
 				cfgs = append(cfgs, mkCfg(0, 60, 0, 0, mode), mkCfg(r.Pick(0, 61), r.Pick(10, 30, 61, 300), r.Pick(0, 5), r.Pick(0, 500, 1500), mode))
 			}
+			type c05job struct {
+				cf    cfgVar
+				stopS int
+				cs    string
+				nows  []int64
+			}
+			var jobs []c05job
 			for _, cf := range cfgs {
 				stopS := -1
 				if r.Intn(4) == 0 {
 					stopS = cf.startS + r.Pick(2, 7, 30, 100)
 				}
-				cs := mpdCfgStr(cf, stopS)
-				nows := pickInstants(c, a, cf, c.N(10, 60))
+				jobs = append(jobs, c05job{cf, stopS, mpdCfgStr(cf, stopS), pickInstants(c, a, cf, c.N(10, 60))})
+			}
+			// split into periods with an availability offset: a new Period is listed at its start, the segment that ends
+			// there becomes available earlier, the first entry changes at yet another instant — around a period boundary
+			if ref := refRepOf(a); ref != nil && ref.ContentType == "video" && a.SegmentDurMS > 0 {
+				for _, pph := range []int{60, 30} {
+					pd := 3600 / pph
+					if pd*1000%a.SegmentDurMS != 0 || (!c.Thorough() && pph == 30 && ai%2 == 0) {
+						continue
+					}
+					cf := mkCfg(r.Pick(0, 0, 61), r.Pick(60, 30, 25), 0, r.Pick(500, 1500, 3500, 0), r.PickS("tlt", "tln"))
+					if cf.atoMS >= a.SegmentDurMS {
+						cf = mkCfg(cf.startS, cf.tsbd, 0, 500, cf.mode)
+					}
+					B := int64(cf.startS)*1000 + (int64(1790000000000)/int64(pd*1000))*int64(pd*1000)
+					var nows []int64
+					for d := -int64(a.SegmentDurMS); d <= 2*int64(a.SegmentDurMS); d += 250 {
+						nows = append(nows, B+d, B+d+1)
+					}
+					jobs = append(jobs, c05job{cf, -1, withPeriods(cf.s, pph, false), nows})
+					c.Count("c05-period-jobs")
+				}
+			}
+			for _, jb := range jobs {
+				cf, stopS, cs, nows := jb.cf, jb.stopS, jb.cs, jb.nows
 				var prev *xMPD
 				var prevLine, prevRaw string
 				var prevNow int64
